@@ -419,6 +419,7 @@ func c01Directed(run *ev.Run, st *cmpStats) {
 	fB := mkfile("t/sub/b.txt", "b\n", 0o640)
 	fC := mkfile("t/sub/deep/c.txt", "c\n", 0o600)
 	extra := mkfile("extra.txt", "extra\n", 0o644)
+	noPerm := mkfile("no-permission-bits.dat", "secret\n", 0)
 	// symlinked sources
 	realDir := mkdir("realdir", 0o750)
 	realDoc := mkfile("realdoc.md", "doc\n", 0o640)
@@ -436,6 +437,13 @@ func c01Directed(run *ev.Run, st *cmpStats) {
 	}
 	stamp()
 	treeExp := func(dst string) []gen.Expect {
+		if dst == "/" {
+			return []gen.Expect{
+				{Dst: "/sub", Kind: "dir", Node: tSub}, {Dst: "/sub/deep", Kind: "dir", Node: tDeep},
+				{Dst: "/a.txt", Kind: "file", Src: abs(fA), Node: fA}, {Dst: "/sub/b.txt", Kind: "file", Src: abs(fB), Node: fB},
+				{Dst: "/sub/deep/c.txt", Kind: "file", Src: abs(fC), Node: fC},
+			}
+		}
 		return []gen.Expect{
 			{Dst: dst, Kind: "dir", Node: tRoot}, {Dst: dst + "/sub", Kind: "dir", Node: tSub}, {Dst: dst + "/sub/deep", Kind: "dir", Node: tDeep},
 			{Dst: dst + "/a.txt", Kind: "file", Src: abs(fA), Node: fA}, {Dst: dst + "/sub/b.txt", Kind: "file", Src: abs(fB), Node: fB},
@@ -463,12 +471,24 @@ func c01Directed(run *ev.Run, st *cmpStats) {
 		name     string
 		contents []*gen.Content
 	}
+	// cases restricted to one format
+	onlyFormat := map[string]string{"tree-at-the-root": "rpm"}
 	linkDoc := filepath.Join(root, "linkdoc.md")
 	cases := []dcase{
 		{"entry-inside-tree-destination-listed-first", []*gen.Content{file("/opt/t/sub/extra.txt"), tree("/opt/t")}},
 		{"entry-inside-tree-destination-listed-last", []*gen.Content{tree("/opt/t"), file("/opt/t/sub/deep/extra.txt")}},
 		{"two-entries-inside-tree-destination", []*gen.Content{file("/opt/t/extra0.txt"), file("/opt/t/sub/deep/extra.txt"), tree("/opt/t")}},
 		{"backslashes-in-tree-names", []*gen.Content{bsTree}},
+		// a source whose permission bits are all cleared (readable for root only):
+		// the mode is the source mode, in every format
+		{"source-without-permission-bits", []*gen.Content{
+			{Src: abs(noPerm), Dst: "/opt/d/no-permission-bits.dat", Exp: []gen.Expect{{Dst: "/opt/d/no-permission-bits.dat", Kind: "file", Src: abs(noPerm), Node: noPerm}}},
+			file("/opt/d/ordinary.txt"),
+		}},
+		// an overlay of the root file system: the tree lands at "/"
+		// (rpm only: the tar based formats ship the tree's own root as a member
+		// named "./" or "" there, observation O4 - no expectation is held against it)
+		{"tree-at-the-root", []*gen.Content{tree("/")}},
 		{"sources-behind-symbolic-links", []*gen.Content{
 			{Type: "dir", Src: filepath.Join(root, "linkdir"), Dst: "/var/lib/d/linked", Exp: []gen.Expect{{Dst: "/var/lib/d/linked", Kind: "dir", Node: realDir}}},
 			{Type: "doc", Src: linkDoc, Dst: "/usr/share/doc/d/README.md", Exp: []gen.Expect{{Dst: "/usr/share/doc/d/README.md", Kind: "file", Src: abs(realDoc), Node: realDoc}}},
@@ -487,6 +507,9 @@ func c01Directed(run *ev.Run, st *cmpStats) {
 			s.Contents = dc.contents
 			c := &gen.Case{Index: 900000 + ci, Root: root, Tree: gen.NewTree(), Spec: s, Features: map[string]bool{}}
 			for _, f := range formats {
+				if o := onlyFormat[dc.name]; o != "" && o != f {
+					continue
+				}
 				run.Case(fmt.Sprintf("directed|%s|umask=%o|%s", dc.name, umask, f), true)
 				res := buildYAML(s.YAML(), f)
 				if res.Err != nil || res.Panic != "" {
